@@ -581,6 +581,43 @@ func expectField(t reflect.Type, base reflect.Value, layers []reflect.Value) str
 	}
 }
 
+// ptFieldSets walks the config type and its pointerified counterpart in parallel: at every struct, the field names
+// Pointerify kept against the ones it must keep.  Returns the path of the first struct where they differ.
+func ptFieldSets(T, PT reflect.Type, path string) (string, []string, []string) {
+	var wantNames, gotNames []string
+	var wantFields []reflect.StructField
+	for k := 0; k < T.NumField(); k++ {
+		f := T.Field(k)
+		first, _ := utf8.DecodeRuneInString(f.Name)
+		if k := f.Type.Kind(); k == reflect.Chan || k == reflect.Func {
+			continue // channels and functions are not configuration
+		}
+		if unicode.IsUpper(first) && f.Tag.Get("dials") != "-" {
+			wantNames = append(wantNames, f.Name)
+			wantFields = append(wantFields, f)
+		}
+	}
+	for k := 0; k < PT.NumField(); k++ {
+		gotNames = append(gotNames, PT.Field(k).Name)
+	}
+	if !reflect.DeepEqual(wantNames, gotNames) && (len(wantNames)+len(gotNames) > 0) {
+		return path, wantNames, gotNames
+	}
+	for k, f := range wantFields {
+		ft, pt := f.Type, PT.Field(k).Type
+		if ft.Kind() == reflect.Ptr {
+			ft = ft.Elem()
+		}
+		if ft.Kind() != reflect.Struct || isTUStruct(ft) || pt.Kind() != reflect.Ptr || pt.Elem().Kind() != reflect.Struct {
+			continue
+		}
+		if w, a, b := ptFieldSets(ft, pt.Elem(), path+"."+f.Name); w != "" {
+			return w, a, b
+		}
+	}
+	return "", nil, nil
+}
+
 func init() { register("C01", checkC01) }
 
 func checkC01(c *Ctx) {
@@ -621,24 +658,12 @@ func checkC01(c *Ctx) {
 		// oracle (independent of the model): the pointerified type has one field, in order and under the same name, for
 		// every exported field that is not tagged `dials:"-"` and is not a channel or function - exported meaning "the first LETTER is upper case"
 		if PT != nil && PT.Kind() == reflect.Struct {
-			var wantNames, gotNames []string
-			for k := 0; k < T.NumField(); k++ {
-				f := T.Field(k)
-				first, _ := utf8.DecodeRuneInString(f.Name)
-				if k := f.Type.Kind(); k == reflect.Chan || k == reflect.Func {
-					continue // channels and functions are not configuration
-				}
-				if unicode.IsUpper(first) && f.Tag.Get("dials") != "-" {
-					wantNames = append(wantNames, f.Name)
-				}
-			}
-			for k := 0; k < PT.NumField(); k++ {
-				gotNames = append(gotNames, PT.Field(k).Name)
-			}
-			if !reflect.DeepEqual(wantNames, gotNames) && (len(wantNames)+len(gotNames) > 0) {
+			if where, wantNames, gotNames := ptFieldSets(T, PT, T.String()); where != "" {
+				cs["struct"] = where
 				res.Add(Finding{Kind: "violation", What: "Pointerify dropped or added a field: a leaf no source can set always keeps its default, whatever the layers say", Case: cs, Expected: wantNames, Observed: gotNames})
+				res.Case("PT|"+T.String(), false, cs)
+				continue // the layers below are built on the pointerified type's positions: nothing to compare them with
 			}
-			// no `continue`: the leaf-wise oracle below does not depend on the model
 		}
 		nl := r.Intn(6)
 		pset := 15 + r.Intn(70)
@@ -686,7 +711,11 @@ func checkC01(c *Ctx) {
 		if implRes != modelRes {
 			res.Add(Finding{Kind: "disagreement", What: "compose: model != implementation", Case: cs, Observed: implRes, Model: modelRes})
 		}
-		want := "ok " + expectStruct(T, def.Elem(), layerStructs)
+		var want string
+		if opn := catch(func() { want = "ok " + expectStruct(T, def.Elem(), layerStructs) }); opn != "" {
+			// the oracle walks the layers by the positions the pointerified type must have
+			want = "the pointerified type's fields do not line up with the config type's: " + opn
+		}
 		if implRes != want {
 			res.Add(Finding{Kind: "violation", What: "stacked config differs from the leaf-wise precedence rule", Case: cs, Expected: want, Observed: implRes})
 		}
